@@ -38,7 +38,7 @@ def gen_case(rng, tier, idx):
     gran = rng.choice([g for g in (1, 2, 4, 8, 16, 32, 64) if dw % g == 0])
     if rng.random() < 0.7:
         gran = 8
-    return {"aw": rng.choice([1, 2, 3, 4, 5, 6, 6, 8, 8, 10, 10, 12, 12, 16, 20, 40, 64]), "dw": dw, "gran": gran, "steps": rng.randint(1, 25)}
+    return {"aw": rng.choice([1, 2, 3, 4, 5, 6, 6, 8, 8, 10, 10, 12, 12, 16, 20, 40, 64]), "dw": dw, "gran": gran, "steps": rng.randint(1, 25) if rng.random() < 0.95 else rng.randint(60, 300)}
 
 
 def ceil_log2(n):
